@@ -2,6 +2,7 @@
 """Rewrites the table of DESIGN.md 12.12 (between the SEEDTABLE markers) from seeded/*/meta.json."""
 import json, os, re
 ROOT = "/verif/seeded"
+FIRST = json.load(open("/verif/tools/first_try.json")) if os.path.exists("/verif/tools/first_try.json") else {}
 rows = []
 for d in sorted(os.listdir(ROOT)):
     mp = os.path.join(ROOT, d, "meta.json")
@@ -17,14 +18,14 @@ for d in sorted(os.listdir(ROOT)):
         title = title[:147] + "..."
     res = m.get("checks", {}).get("results", {})
     if not res:
-        rows.append("| %s | %s | %s | not yet tried | |" % (d, title, m.get("property", "")))
+        rows.append("| %s | %s | %s | not yet tried | | |" % (d, title, m.get("property", "")))
     for p, r in sorted(res.items()):
         verdict = "caught" if r["caught"] else ("tool error" if r["rc"] == 2 else "**missed**")
         if m.get("status") == "rejected":
             verdict += " (change rejected as a seed, see meta.json)"
         guards = ", ".join(g.rsplit("x", 1)[0] for g in r["guards"])
-        rows.append("| %s | %s | %s (%s) | %s | %s |" % (d, title, p, r.get("tier", "quick"), verdict, guards))
-table = "| change | what it does | check | verdict | guards |\n|---|---|---|---|---|\n" + "\n".join(rows)
+        rows.append("| %s | %s | %s (%s) | %s | %s | %s |" % (d, title, p, r.get("tier", "quick"), verdict, guards, FIRST.get(d, "")))
+table = "| change | what it does | check | verdict | guards | history |\n|---|---|---|---|---|---|\n" + "\n".join(rows)
 p = "/verif/DESIGN.md"
 s = open(p).read()
 if "<!-- SEEDTABLE BEGIN -->" in s:
